@@ -278,7 +278,7 @@ pub fn run(ctx: &Ctx) -> Report {
     let (st, mut failure) = run_items(ctx, "layout", items, check);
     stats.merge(st);
     if failure.is_none() {
-        let (st, f) = run_proptest(ctx, "layout", 7, ctx.n(100_000, 2_000_000), strategy, |c: &LCase, st| check(c, st));
+        let (st, f) = run_proptest(ctx, "layout", 7, ctx.n(100_000, 30_000_000), strategy, |c: &LCase, st| check(c, st));
         stats.merge(st);
         failure = f;
     }
